@@ -365,6 +365,41 @@ fn layer2(rep: &Report, env: &Env, flags: &[RFlags]) {
         }
         loc.flush(rep);
     });
+    // thorough: ordered triples over one representative letter per condition kind
+    if rep.tier == mc::Tier::Thorough {
+        let mut reps: Vec<usize> = Vec::new();
+        let mut seen = std::collections::BTreeSet::new();
+        for (i, (n, _)) in s2.iter().enumerate() {
+            if seen.insert(n.clone()) {
+                reps.push(i);
+            }
+        }
+        rep.extra("layer2_triple_letters", json!(reps.len()));
+        let mut triples: Vec<(usize, usize, usize)> = Vec::new();
+        for a in &reps {
+            for b in &reps {
+                for c in &reps {
+                    triples.push((*a, *b, *c));
+                }
+            }
+        }
+        triples.par_chunks(64).for_each(|chunk| {
+            let mut loc = Local::new();
+            for (a, b, c) in chunk {
+                let c1 = Sx::list(&[s2[*a].1.clone(), s2[*b].1.clone(), s2[*c].1.clone()]);
+                for (sname, sec) in &seconds {
+                    let out = match sec {
+                        None => output(&[spend(&P1, &PH1, 5, c1.clone())]),
+                        Some((p, ph, am)) => output(&[spend(&P1, &PH1, 5, c1.clone()), spend(p, ph, *am, Sx::nil())]),
+                    };
+                    for f in flags {
+                        case(rep, &mut loc, env, "L2t", &format!("{}|{sname}", s2[*a].0), &out, *f);
+                    }
+                }
+            }
+            loc.flush(rep);
+        });
+    }
     rep.sample(json!({"layer": 2, "shape": "A=(P1,PH1,5) with <=2 conditions + optional B (child of A) / C (same puzzle hash) / D (same coin) with <=1 condition", "letters": s2.iter().take(6).map(|(n, s)| format!("{n}: {s:?}")).collect::<Vec<_>>()}));
 }
 
@@ -495,7 +530,7 @@ fn layer4(rep: &Report, env: &Env) {
 
 fn run(rep: &Report) {
     let env = drive::env();
-    rep.set_rule("generator outputs in four layers x flag subsets of {NO_UNKNOWN_CONDS, STRICT_ARGS_COUNT, COST_CONDITIONS} x {EmptyVisitor, MempoolVisitor} (signatures not validated): L1 = one condition: 52 opcode atoms x every argument list of length <= 2 (quick) / <= 3 (thorough) over 27 universal letters x {nil, 01} terminator; L1m = SEND/RECEIVE x all 64 modes + 6 malformed modes x 3 message sizes x type-correct commitment with every single off-type substitution, missing/extra argument; L1i = 13 integer conditions x 17 integer atoms x {no extra arg, extra, nil extra}, CREATE_COIN x 3 puzzle hashes x 17 amounts x 11 memo shapes x tail x terminator, 17 spend amount atoms; L2 = spend A with every ordered list of <= 2 of the interaction letters, alone or with B (child) / C (same puzzle hash) / D (double spend) carrying <= 1 letter; L2x = a coin with parent id = puzzle hash messaging itself under every pair of source modes (mode bits are part of the commitment); L3 = structural defects at the 5 list positions; L4 = 1023/1024/1025 announcements, 5999/6000/6001 spends with LIMIT_SPENDS. distinct = distinct accepted reference summaries under the empty flag set.");
+    rep.set_rule("generator outputs in four layers x flag subsets of {NO_UNKNOWN_CONDS, STRICT_ARGS_COUNT, COST_CONDITIONS} x {EmptyVisitor, MempoolVisitor} (signatures not validated): L1 = one condition: 52 opcode atoms x every argument list of length <= 2 (quick) / <= 3 (thorough) over 27 universal letters x {nil, 01} terminator; L1m = SEND/RECEIVE x all 64 modes + 6 malformed modes x 3 message sizes x type-correct commitment with every single off-type substitution, missing/extra argument; L1i = 13 integer conditions x 17 integer atoms x {no extra arg, extra, nil extra}, CREATE_COIN x 3 puzzle hashes x 17 amounts x 11 memo shapes x tail x terminator, 17 spend amount atoms; L2 = spend A with every ordered list of <= 2 of the interaction letters, alone or with B (child) / C (same puzzle hash) / D (double spend) carrying <= 1 letter (thorough: + every ordered triple over one representative letter per condition kind); L2x = a coin with parent id = puzzle hash messaging itself under every pair of source modes (mode bits are part of the commitment); L3 = structural defects at the 5 list positions; L4 = 1023/1024/1025 announcements, 5999/6000/6001 spends with LIMIT_SPENDS. distinct = distinct accepted reference summaries under the empty flag set.");
     rep.assume("reference model mc::refcond implements DESIGN.md Appendix A; valid public keys are exactly the harness's three keys (other 48-byte letters are the infinity encoding and an off-curve string, self-checked at start)");
     rep.assume("only accept/reject, the canonical summary and the condition cost are compared, never error codes");
     let flags = all_rflags(&[false, true], false);
